@@ -1,7 +1,7 @@
 """C20 — evaluations are isolated from each other and independent of the host hash seed."""
 import os, sys, json, subprocess
 from .. import gen, impl, common, values as VL
-from ..gen import lit, bi, raw, call, fundef, arg, render, str_lit, enc
+from ..gen import bytes_lit, lit, bi, raw, call, fundef, arg, render, str_lit, enc
 from ..corr import Case, monitor, obs
 
 FS = {"가.pbhhg": "ㄴ ㄷ ㄷㅎㄷ".encode(), "나/다.pbhhg": "ㄱㅇㄱ ㄴ ㄷㅎㄷ ㅎ".encode(), "라.pbhhg": "ㄴ ㄱ ㄴㄴㅎㄷ".encode(),
@@ -29,6 +29,10 @@ def _host_state_programs():
         c14.program("s20.bin", 'a+', [('write', b'ab'), ('seek', 0), ('read', -1), ('close',)]),
         c14.program("나/s20.bin", 'w+', [('write', b'xyz'), ('seek', 1), ('read', 1), ('close',)]),
         render(bi('ㅂ', str_lit("나/다.pbhhg"))) + " (ㄷ ㄱㅇㄱ ㅎㄴ ㅎ) ㅎㄴ",
+        # the standard streams taken out by descriptor (ㄱㄴ with 0 / 1 / 2): each evaluation has its own
+        f"ㄴ ㅈㄹ ㄱㄴㅎㄷ ({render(bytes_lit(b'a'))} ㅈㄹ ㄱㅇㄱ ㅎㄷ ㅎ) ㄱㄹㅎㄷ",
+        "ㄱ ㄹ ㄱㄴㅎㄷ (ㄹ ㄹ ㄱㅇㄱ ㅎㄷ ㅎ) ㄱㄹㅎㄷ",
+        f"(ㄴ ㅈㄹ ㄱㄴㅎㄷ ({render(bytes_lit(b'b'))} ㅈㄹ ㄱㅇㄱ ㅎㄷ ㅎ) ㄱㄹㅎㄷ) ({render(str_lit('t'))} ㅈㄹㅎㄴ ㅎ) ㄱㄹㅎㄷ",
         # process-lifetime objects (the built-in module directories) as operands of a merge / a lookup
         "ㅈㄷ ((ㅂ ㅅ ㅂㅎㄷ) (ㅂ ㄱ ㅅㅈㅎㄷ) ㄷㅎㄷ) ㅎㄴ".replace("ㅈㄷ (", "ㅂ (", 1),
         "ㅂ ((ㅂ ㅅ ㅂㅎㄷ) ㅅㅈㅎㄱ ㄷㅎㄷ) ㅎㄴ",
@@ -42,7 +46,7 @@ def _host_state_programs():
     ][:-1]
 
 
-def _equalish_sessions(rng):
+def _equalish_sessions(rng, tier='quick'):
     """the same function applied, in one process, to arguments the host considers equal (and hashes alike) but the
     language distinguishes: 0.0 / −0.0 / 0 / 0+0i / −0.0+0i, 1 / 1.0 / 1+0i — in both orders. A cache keyed by
     host equality anywhere in the interpreter would make the later result depend on the earlier call."""
@@ -59,8 +63,16 @@ def _equalish_sessions(rng):
         sh = progs[:]
         rng.shuffle(sh)
         out.append(sh)
+    # binary functions: operands that the host considers equal across numeric types (2, 2.0, 2+0i; 40, 40.0 …), also
+    # large enough exponents for a power cache to engage
+    TWO, TWOF = "ㄷ", "(ㄷ ㅅㅅㅎㄴ)"
+    left = args[:6] + [TWO, TWOF, f"({TWOF} {Z} ㅂㅅㅎㄷ)", "ㄹ", "(ㄹ ㅅㅅㅎㄴ)", f"((ㄹ ㅅㅅㅎㄴ) {Z} ㅂㅅㅎㄷ)", "ㅈ", "(ㅈ ㅅㅅㅎㄴ)"]
+    right = [Z, NZ, "ㄴㄱ", TWO, TWOF, enc(40), f"({enc(40)} ㅅㅅㅎㄴ)", enc(-33), enc(33)]
+    if tier == 'quick':
+        left = [Z, NZ, "ㄱ", TWO, TWOF, f"({TWOF} {Z} ㅂㅅㅎㄷ)", "ㄹ", "(ㄹ ㅅㅅㅎㄴ)"]
+        right = [Z, NZ, TWO, TWOF, enc(40), f"({enc(40)} ㅅㅅㅎㄴ)", enc(-33)]
     for f in binary:
-        prs = [(a, b) for a in args[:6] for b in (args[0], args[1], args[9])]
+        prs = [(a, b) for a in left for b in right]
         progs = [f"{a} {b} {f} ㅎㄷ" for a, b in prs]
         out.append(progs)
         out.append(list(reversed(progs)))
@@ -196,7 +208,7 @@ def cases(rng, tier):
     sp = SPECIAL + _host_state_programs()
     pairs = [[p1, q] for p1 in sp for q in sp]
     B = 24
-    for tag, ss in (('session', sessions), ('pair', pairs), ('equalish', _equalish_sessions(rng))):
+    for tag, ss in (('session', sessions), ('pair', pairs), ('equalish', _equalish_sessions(rng, tier))):
         for i in range(0, len(ss), B):
             yield Case(program=ss[i][0], fs=FS, stdin="in1\nin2\n", tag=tag, monitor='c20_session', data=ss[i:i + B],
                        skip_model=True, timeout=900)
